@@ -308,6 +308,71 @@ fn timer_isr(_req: &Value) -> Value {
     json!({"ok": true, "fired": [fired.0, fired.1], "nonzero": touched})
 }
 
+fn reg_map(req: &Value) -> std::collections::HashMap<String, u32> {
+    let mut m = std::collections::HashMap::new();
+    if let Some(regs) = req.get("regs").and_then(|v| v.as_object()) {
+        for (k, v) in regs.iter() {
+            if let Some(x) = v.as_u64() {
+                m.insert(k.clone(), x as u32);
+            }
+        }
+    }
+    m
+}
+
+fn map_json(m: &std::collections::HashMap<String, u32>) -> Value {
+    let mut keys: Vec<&String> = m.keys().collect();
+    keys.sort();
+    let mut out = Map::new();
+    for k in keys {
+        out.insert(k.clone(), json!(m[k]));
+    }
+    Value::Object(out)
+}
+
+/// registers.bin as the Rust core writes it.  "direct": `snapshot::pack_registers` on the given name->value
+/// map.  "state": the `CoreRuntime::save_snapshot` route: registers set on a `LlamaState` through `set_reg`,
+/// then `collect_registers` -> `pack_registers`.
+fn snapshot_pack(req: &Value) -> Value {
+    let regs = reg_map(req);
+    let direct = sc62015_core::pack_registers(&regs);
+    let mut st = LlamaState::new();
+    let mut names: Vec<&String> = regs.keys().collect();
+    names.sort();
+    for n in names {
+        match reg_by_name(n) {
+            Some(r) => st.set_reg(r, regs[n]),
+            None => return err(format!("unknown register {n}")),
+        }
+    }
+    let collected = sc62015_core::collect_registers(&st);
+    let via_state = sc62015_core::pack_registers(&collected);
+    json!({"ok": true, "direct": direct, "state": via_state})
+}
+
+/// registers.bin as the Rust core reads it.  "direct": `snapshot::unpack_registers`; "state": the
+/// `CoreRuntime::load_snapshot` route: `apply_registers` onto a fresh `LlamaState`, read back with `get_reg`.
+fn snapshot_unpack(req: &Value) -> Value {
+    let bytes: Vec<u8> = req
+        .get("bytes")
+        .and_then(|v| v.as_array())
+        .map(|a| a.iter().map(|x| x.as_u64().unwrap_or(0) as u8).collect())
+        .unwrap_or_default();
+    let regs = match sc62015_core::unpack_registers(&bytes) {
+        Ok(r) => r,
+        Err(e) => return json!({"ok": true, "error": format!("{e}")}),
+    };
+    let mut st = LlamaState::new();
+    sc62015_core::apply_registers(&mut st, &regs);
+    let mut state = Map::new();
+    for n in ["PC", "BA", "I", "X", "Y", "U", "S", "F"].iter() {
+        if let Some(r) = reg_by_name(n) {
+            state.insert(n.to_string(), json!(st.get_reg(r)));
+        }
+    }
+    json!({"ok": true, "direct": map_json(&regs), "state": Value::Object(state)})
+}
+
 pub fn handle(verb: &str, req: &Value) -> Value {
     match verb {
         "timer_isr" => timer_isr(req),
@@ -316,6 +381,8 @@ pub fn handle(verb: &str, req: &Value) -> Value {
         "reset_llama" => reset_llama(req),
         "reset_runtime" => reset_runtime(req),
         "irq_runtime" => irq_runtime(req),
+        "snapshot_pack" => snapshot_pack(req),
+        "snapshot_unpack" => snapshot_unpack(req),
         _ => err(format!("unknown c17 verb {verb}")),
     }
 }
